@@ -171,9 +171,8 @@ Lemma digits_value : forall fuel n acc,
 Proof.
   induction fuel as [|f IH]; intros n acc Hn.
   - change (10 ^ N.of_nat 1) with 10 in Hn. cbn [digits].
-    assert (n / 10 = 0) as -> by (apply N.div_small; exact Hn).
-    cbn [N.eqb]. unfold atoi_from. cbn [fold_left]. f_equal.
-    rewrite N.mod_small by exact Hn. lia.
+    destruct (n / 10 =? 0); unfold atoi_from; cbn [fold_left]; f_equal;
+      rewrite N.mod_small by exact Hn; lia.
   - remember (S f) as f1. cbn [digits]. destruct (n / 10 =? 0) eqn:E.
     + apply N.eqb_eq in E. assert (n < 10) by (apply N.div_small_iff in E; lia).
       unfold atoi_from. cbn [fold_left]. f_equal. rewrite N.mod_small by assumption. lia.
